@@ -640,3 +640,47 @@ Proof.
   exists id, (crule c). split; [|split; [reflexivity|apply N.eqb_eq; exact Hs]].
   rewrite <- live_is_latest, Hid. reflexivity.
 Qed.
+
+(* ------------------------------------------------------------------ every client that is gone was cancelled *)
+Lemma final_fold_app s a b : fold_left next (a ++ b) s = fold_left next b (fold_left next a s).
+Proof. apply fold_left_app. Qed.
+
+Lemma trace_ti ops : forall s rt, SI s -> TI rt s -> okr rt ->
+  TI (rev (trace_from s ops) ++ rt) (fold_left next ops s).
+Proof.
+  induction ops as [|o r IH]; intros s rt HS T Ho; cbn [trace_from rev app fold_left]; [exact T|].
+  rewrite rev_app_distr, <- app_assoc.
+  destruct (step_trace s o rt HS T Ho) as [Ho' T'].
+  apply IH; [apply si_next; exact HS|exact T'|exact Ho'].
+Qed.
+
+(* a client installed at any time is either still the client of its id, or it has been unregistered
+   from the messages hub and cancelled: replace, delete and delete-all all end the old client *)
+Theorem installed_is_live_or_cancelled ops id g :
+  In (EInstall id g) (trace ops) ->
+  (exists c, clk id (clients (final ops)) = Some c /\ cgen c = g) \/
+  (In (ECancel g) (trace ops) /\ In (EUnreg g) (trace ops)).
+Proof.
+  intros H. pose proof (trace_ti ops init [] si_init ti_init I) as T. rewrite app_nil_r in T.
+  rewrite (in_rev (trace ops)) in H. destruct (t_inst _ _ T id g H) as [Hl|[H1 H2]]; [left; exact Hl|].
+  right. rewrite !(in_rev (trace ops)). auto.
+Qed.
+
+(* so: once the latest operation on an id is a delete (or delete-all), every client ever made for
+   that id has been cancelled and unregistered *)
+Theorem deleted_rule_has_no_client ops id g :
+  latest ops id = None -> In (EInstall id g) (trace ops) ->
+  In (ECancel g) (trace ops) /\ In (EUnreg g) (trace ops).
+Proof.
+  intros Hl Hi. destruct (installed_is_live_or_cancelled ops id g Hi) as [(c & Hc & _)|H]; [|exact H].
+  pose proof (live_is_latest ops id) as E. rewrite Hc, Hl in E. discriminate.
+Qed.
+
+(* the reserved word is exactly the string "deleteAll": no other name is read as reserved *)
+Theorem reserved_is_exact_word name n : n <> reserved ->
+  (id_of_name name n = reserved <-> name = "deleteAll"%string).
+Proof.
+  intros Hn. unfold id_of_name. destruct (String.eqb_spec name "deleteAll") as [->|Hne].
+  - split; reflexivity.
+  - split; [intros E; contradiction|intros E; contradiction].
+Qed.
